@@ -462,6 +462,10 @@ func (c *Ctx) finish(info propInfo) int {
 		"notes":               c.notes,
 		"exhaustive":          false,
 	}
+	if info.assumptions == nil {
+		info.assumptions = []string{}
+	}
+	info.assumptions = append(info.assumptions, "the analysed tree type-checks; go/ssa and the CHA/VTA call graph are sound for the constructs used")
 	ev := evidence{PropertyID: c.Prop, Tier: c.Tier, Seed: seedFromEnv(), Level: "other", Coverage: cov,
 		Assumptions: info.assumptions, WallS: time.Since(c.start).Seconds(), Violations: nviol}
 	b, _ := json.MarshalIndent(ev, "", " ")
